@@ -159,9 +159,23 @@ theorem safe_stepW (s s' : St) (wid : Nat) (hf : NoFaults s.cfg) (h : SafeInv s)
         cases hh : w.held with
         | none => rfl
         | some i => exact absurd (hH (by simp [hh])) (by simp [hpc])
+      split at hs
+      · simp only [Option.some.injEq] at hs
+        subst hs
+        exact safe_setWorker s h wid w _ hg (by exact hwid) s.workQ s.resQ _ s.lock
+          (by rw [hnone]) (by exact heldOk_of_none hnone) (by simp [hpc])
+      · simp only [Option.some.injEq] at hs
+        subst hs
+        exact safe_setWorker s h wid w _ hg (by exact hwid) s.workQ s.resQ _ s.lock
+          (by rw [hnone]; simp [workerExit]) (by exact heldOk_of_none rfl) (by simp [hpc])
+    · -- ending
+      have hnone : w.held = none := by
+        cases hh : w.held with
+        | none => rfl
+        | some i => exact absurd (hH (by simp [hh])) (by simp [hpc])
       simp only [Option.some.injEq] at hs
       subst hs
-      exact safe_setWorker s h wid w _ hg (by exact hwid) s.workQ s.resQ _ s.lock
+      exact safe_setWorker s h wid w _ hg (by exact hwid) s.workQ s.resQ s.replQ s.lock
         (by rw [hnone]; simp [workerExit]) (by exact heldOk_of_none rfl) (by simp [hpc])
     · simp at hs
 
